@@ -382,7 +382,8 @@ def _oracle(recipe: dict, built: G.Built, obs: Observed, expect_valid: set, foun
 def enc_key(enc: dict, opt: dict) -> tuple:
     return (enc.get('start_index'), enc.get('fill'), enc.get('transposed'), tuple(enc.get('tables', [])),
             enc.get('edge_dim_declared'), enc.get('coords_as', 'vars'), enc.get('face_coords'),
-            enc.get('start_index_spelling', 'int'), bool(opt.get('netcdf')), bool(opt.get('drop_edge_id')))
+            enc.get('start_index_spelling', 'int'), bool(opt.get('netcdf')), bool(opt.get('drop_edge_id')),
+            enc.get('fill_spec', 'i4big'))
 
 
 def is_uniform(faces: list) -> bool:
@@ -495,6 +496,9 @@ def sampled_cases(ctx, items: list, mesh: dict) -> None:
             opt['netcdf'] = True
         elif rng.random() < 0.3 and enc['fill'] != 'nan':
             opt['int_dtype'] = rng.choice(['int64', 'uint32'])
+        elif enc['fill'] == 'attr':
+            # integer fill values of every kind: falsy, negative, beyond the int32 range, narrow types
+            enc['fill_spec'] = rng.choice(['low', 'neg', 'u4max', 'i8max', 'i2'])
         if rng.random() < 0.3:
             recipe['names'] = {'face_dim': 'nface', 'node_dim': 'nnode', 'edge_dim': 'nedge',
                                'max_dim': 'nmax', 'two_dim': rng.choice(['Two', 'two', 'nv'])}
